@@ -2,6 +2,7 @@ package rules
 
 import (
 	"fmt"
+	"go/constant"
 	"go/token"
 	"go/types"
 	"sort"
@@ -915,6 +916,9 @@ func (c *Ctx) Const(pkg, name string) string {
 	if !ok {
 		c.Undecided("constant %s.%s not found", pkg, name)
 		return "const(?)"
+	}
+	if obj.Val().Kind() == constant.String {
+		return "const(" + obj.Val().ExactString() + ")"
 	}
 	return "const(" + obj.Val().String() + ")"
 }
